@@ -1,6 +1,11 @@
-// native replay oracle for C08: reliable_write / NoCompressor under short writes provoked with RLIMIT_FSIZE
+// CXXFLAGS: -lz
+// native replay oracle for C08: reliable_write / NoCompressor under short writes provoked with RLIMIT_FSIZE; GzipCompressor under a single transient
+// write(2) failure (write() is interposed for one file descriptor: the k-th call fails once with ENOSPC, all later calls succeed)
 #include <osmium/io/detail/read_write.hpp>
 #include <osmium/io/compression.hpp>
+#include <osmium/io/gzip_compression.hpp>
+#include <sys/syscall.h>
+#include <cerrno>
 #include <sys/resource.h>
 #include <sys/stat.h>
 #include <csignal>
@@ -9,6 +14,30 @@
 #include <vector>
 #include <fcntl.h>
 #include <unistd.h>
+
+static int g_fd = -1, g_fail_at = -1, g_calls = 0, g_injected = 0;
+static bool same_file(int a, int b) { struct stat x, y; return ::fstat(a, &x) == 0 && ::fstat(b, &y) == 0 && x.st_dev == y.st_dev && x.st_ino == y.st_ino; }   // the compressor works on a dup() of the descriptor
+extern "C" ssize_t write(int fd, const void* buf, size_t count) {
+    if (g_fd >= 0 && g_fail_at >= 0 && same_file(fd, g_fd)) { if (g_calls++ == g_fail_at) { ++g_injected; errno = ENOSPC; return -1; } }
+    return static_cast<ssize_t>(::syscall(SYS_write, fd, buf, count));
+}
+
+static int gzip_transient() {
+    std::string fn = "/tmp/c08_oracle_gz_" + std::to_string(getpid());
+    std::string chunk(20000, 'x'); unsigned long long st = 88172645463325252ULL;
+    for (auto& c : chunk) { st ^= st << 13; st ^= st >> 7; st ^= st << 17; c = char(st >> 24); }   // incompressible
+    for (int k = 0; k < 12; ++k) {
+        int fd = ::open(fn.c_str(), O_WRONLY | O_CREAT | O_TRUNC, 0600);
+        g_fd = fd; g_fail_at = k; g_calls = 0; g_injected = 0;
+        bool threw = false;
+        try { osmium::io::GzipCompressor c{fd, osmium::io::fsync::no}; try { for (int i = 0; i < 10; ++i) c.write(chunk); c.close(); } catch (...) { g_fail_at = -1; try { c.close(); } catch (...) {} throw; } }
+        catch (const std::exception&) { threw = true; }
+        g_fd = -1; g_fail_at = -1; ::unlink(fn.c_str());
+        if (g_injected && !threw) { std::printf("GzipCompressor: write(2) call number %d on the output file failed once with ENOSPC, yet neither write() nor close() of the compressor threw: the data of that call is silently missing\nARGV: search\n", k); return 1; }
+        if (!g_injected && threw) { std::printf("GzipCompressor: exception without an injected fault\nARGV: search\n"); return 1; }
+    }
+    return 0;
+}
 
 static long file_size(const std::string& fn) { struct stat st; return ::stat(fn.c_str(), &st) == 0 ? long(st.st_size) : -1; }
 
@@ -33,5 +62,6 @@ int main(int, char**) {
             return 1; }
         if (threw && limit >= long(2 * data.size())) { std::printf("exception although the limit %ld was not reached\nARGV: search\n", limit); return 1; }
     }
+    if (gzip_transient()) return 1;
     std::printf("search: no disagreement found\n"); return 0;
 }
